@@ -43,3 +43,24 @@ package seq
 //@ func (Sequence).CloneAnnotation
 //@   ensures result != nil && fresh(ref(result))
 //@   assigns fresh
+
+// ---- rows as mutable objects (C05/C07: multi.Multi) ----
+// A sequence used as a row has a start and a length that SetOffset, RevComp and Reverse may be called on;
+// rowStart/rowLen are ghost fields of the row object (assumptions on implementations: Start and End observe
+// them, SetOffset sets the start and nothing else, RevComp/Reverse change letters and strand only).
+//@ ghostfield rowStart(s Sequence) int
+//@ ghostfield rowLen(s Sequence) int
+//@ ghostfield rowLetters(s Sequence) int
+//@ func (Sequence).Start
+//@   pure
+//@   ensures result == rowStart(self) && -9223372036854775808 <= result && result <= 9223372036854775807
+//@ func (Sequence).End
+//@   pure
+//@   ensures result == rowStart(self) + rowLen(self) && rowLen(self) >= 0 && -9223372036854775808 <= result && result <= 9223372036854775807
+//@ func (Sequence).SetOffset
+//@   ensures rowStart(self) == arg0
+//@   assigns rowStart(self)
+//@ func (Sequence).RevComp
+//@   assigns rowLetters(self)
+//@ func (Sequence).Reverse
+//@   assigns rowLetters(self)
